@@ -122,6 +122,14 @@ let run_case (t : string list) : string =
     (match expand_pass_exec (unhex dest) (zs stride) (zs p) (zs line) (zs width) (zs bits) (unhex row) with
      | Some d -> hex d
      | None -> "PANIC invalid pass")
+  | ["transform"; c; d; t; pal; trns; w; row] ->
+    let o s = if s = "-" then None else if s = "e" then Some [] else Some (unhex s) in
+    let i = { t_color = zs c; t_depth = zs d; t_palette = o pal; t_trns = o trns } in
+    let n = int_of_z (output_line_size i (zs t) (zs w)) in
+    (match transform_row i (zs t) (unhex row) (List.init n (fun _ -> Z0)) with
+     | TROk out -> hex out
+     | TRErr _ -> "ERR"
+     | TRPanic k -> Printf.sprintf "PANIC %d" (int_of_nat k))
   | ["decode"; c; d; w; h; il; z] ->
     (match decode_frame (zs c) (zs d) (zs w) (zs h) (il = "1") (unhex z) with
      | Some px -> hex px
